@@ -144,6 +144,7 @@ type Outcome struct {
 	Fam       int    `json:"fam"`
 	Expr      string `json:"expr"`
 	VClass    string `json:"vclass"`
+	Res       string `json:"res,omitempty"` // observed result of the first run (replay -results)
 	Mism      []Mism `json:"mism"`
 }
 
@@ -308,6 +309,8 @@ func replay(args []string) {
 	out := fs.String("out", "results.ndjson", "per-vector outcomes")
 	tr := fs.String("trace", "", "write the instruction-level trace of every run here")
 	faults := fs.Bool("faults", false, "also run every vector with each data-tree callback failing in turn")
+	reverse := fs.Bool("reverse", false, "replay the vectors in reverse order (histories: a result may not depend on what ran before)")
+	results := fs.Bool("results", false, "record the observed result of the first run in every outcome")
 	fs.Parse(args)
 	of, _ := os.Create(*out)
 	defer of.Close()
@@ -336,6 +339,7 @@ func replay(args []string) {
 			tenc.Encode(e)
 		}
 	}
+	var lines [][]byte
 	for _, file := range fs.Args() {
 		f, err := os.Open(file)
 		if err != nil {
@@ -345,7 +349,18 @@ func replay(args []string) {
 		sc := bufio.NewScanner(f)
 		sc.Buffer(make([]byte, 1<<22), 1<<22)
 		for sc.Scan() {
-			v, err := fixVector(sc.Bytes())
+			lines = append(lines, append([]byte{}, sc.Bytes()...))
+		}
+		f.Close()
+	}
+	if *reverse {
+		for i, j := 0, len(lines)-1; i < j; i, j = i+1, j-1 {
+			lines[i], lines[j] = lines[j], lines[i]
+		}
+	}
+	{
+		for _, line := range lines {
+			v, err := fixVector(line)
 			if err != nil {
 				fmt.Fprintln(os.Stderr, "bad vector:", err)
 				os.Exit(2)
@@ -390,6 +405,9 @@ func replay(args []string) {
 			}
 			if known {
 				emit(id, text, prog, 0, rr)
+			}
+			if *results {
+				o.Res = short(rr)
 			}
 			if rr.Panic != nil {
 				o.Mism = append(o.Mism, Mism{"panic", "none", rr.Panic})
@@ -485,7 +503,6 @@ func replay(args []string) {
 			}
 			oenc.Encode(o)
 		}
-		f.Close()
 	}
 	fmt.Fprintf(os.Stderr, "replayed %d vectors, %d with mismatches, %d traces, %d listings outside the instruction vocabulary, %d vectors skipped after %d hangs\n", nvec, nmis, ntrace, nunknown, nskipped, nHangs)
 }
